@@ -180,8 +180,12 @@ def _pane_annotations():
     return A
 
 
+# type variables used outside a generic class are documented spellings too: a bound one stands for its bound, a free one for Any
+TV_INT = t.TypeVar('TV_INT', bound=int)
+TV_FREE = t.TypeVar('TV_FREE')
+
 LEAF_TYPES: t.Dict[str, t.Callable[[], t.List[t.Any]]] = {
-    'int': lambda: [int], 'float': lambda: [float], 'complex': lambda: [complex], 'str': lambda: [str],
+    'int': lambda: [int, int, TV_INT], 'float': lambda: [float], 'complex': lambda: [complex], 'str': lambda: [str],
     'bytes': lambda: [bytes], 'bytearray': lambda: [bytearray], 'bool': lambda: [bool],
     'none': lambda: [type(None)],
     'decimal': lambda: [decimal.Decimal], 'fraction': lambda: [fractions.Fraction],
@@ -190,7 +194,7 @@ LEAF_TYPES: t.Dict[str, t.Callable[[], t.List[t.Any]]] = {
     'pattern_bytes': lambda: [t.Pattern[bytes], re.Pattern[bytes]],
     'purepath': lambda: [pathlib.PurePath], 'pureposixpath': lambda: [pathlib.PurePosixPath],
     'path': lambda: [pathlib.Path], 'pathlike': lambda: [os.PathLike],
-    'any': lambda: [t.Any],
+    'any': lambda: [t.Any, t.Any, TV_FREE],
     'enum_int': lambda: [EnumInt], 'enum_str': lambda: [EnumStr], 'enum_mixed': lambda: [EnumMixed],
     'enum_strmix': lambda: [EnumStrMix], 'enum_intmix': lambda: [EnumIntMix],
     'lit_str': lambda: [t.Literal['a', 'b']], 'lit_mixed': lambda: [t.Literal[1, 'a', None]],
@@ -442,6 +446,9 @@ def _has_union_below(ast, top=True) -> bool:
 def _c(ast, child_sp, i):
     ch = ast[i]
     n = n_spellings(ch)
+    if child_sp == 2 and not isinstance(ch, str):
+        # child spelling 2 is about the LEAVES (type variables for int / Any): composites below keep their first spelling
+        return build(ch, 0, child_sp)
     return build(ch, child_sp % n, child_sp)
 
 
